@@ -186,8 +186,8 @@ optional arguments:
   --plant, -p          plant a random satisfying assignment (default: no)
   --help, -h           show this help message and exit
 """
-        parser.add_argument('k', type=positive_int)
-        parser.add_argument('n', type=positive_int)
+        parser.add_argument('k', type=nonnegative_int)
+        parser.add_argument('n', type=nonnegative_int)
         parser.add_argument('m', type=nonnegative_int)
         parser.add_argument('--plant',
                             '-p',
@@ -241,8 +241,8 @@ optional arguments:
   --plant, -p          plant a random satisfying assignment (default: no)
   --help, -h           show this help message and exit
 """
-        parser.add_argument('k', type=positive_int)
-        parser.add_argument('n', type=positive_int)
+        parser.add_argument('k', type=nonnegative_int)
+        parser.add_argument('n', type=nonnegative_int)
         parser.add_argument('m', type=nonnegative_int)
         parser.add_argument('--plant',
                             '-p',
